@@ -20,6 +20,9 @@ from vlib.runner import Violation, hyp_run, shard_seed, crash_sig
 from vlib import cli
 from ref import taperef as T
 
+import collections
+STATS = collections.Counter()      # sub-oracle executions of the current case (flushed into the evidence notes)
+
 PROPERTY = 'C11'
 RULE = ('Hypothesis draws a logical tape of 1-6 blocks: portable kinds (standard, turbo, pure tone, pulse sequence, pure data, '
         'direct recording, pause, stop, loop with body, group, text/archive/hardware info; 16-bit pulse widths incl. 0, pilot '
@@ -687,6 +690,8 @@ def check_analysis(fmt, fname, played, fe, pol, nums, is48, case):
             desc = 'Data (%d bytes%s; %s/%s T-states)' % (n, ' + %d bits' % used if used else '', ','.join(map(str, s0)), ','.join(map(str, s1)))
             exp.append((times[bi][0], times[bi][2], desc) if bi in times else (None, None, desc))
     got = [l for l in lines if l[2].startswith('Data (')]
+    STATS['analysis:run'] += 1
+    STATS['analysis:data-lines'] += len(exp)
     if len(got) != len(exp) or any(g[2] != e[2] or (e[0] is not None and g[:2] != e[:2]) for g, e in zip(got, exp)):
         raise Violation('analysis-data', '%s: analysis shows %r, expected %r' % (fmt, got[:4], exp[:4]), case)
     for t, ear, desc in lines:
@@ -694,6 +699,7 @@ def check_analysis(fmt, fname, played, fe, pol, nums, is48, case):
         if not m or any(int(x) == 0 for x in m.groups()[1:]):
             continue
         lvl = T.level_at(wf, t)
+        STATS['analysis:level-compared' if lvl is not None else 'analysis:level-unknown'] += 1
         if lvl is not None and lvl != ear:
             raise Violation('analysis-level', '%s: analysis line %r at %d shows EAR %d, reference level %d' % (fmt, desc, t, ear, lvl), case)
 
@@ -776,6 +782,9 @@ def oracle(case, rec=None, scratch=None):
     else:
         blocks, native, played_all = _oracle(case, scratch)
     if rec is not None:
+        for k, v in STATS.items():
+            rec.note(k, v)
+        STATS.clear()
         klass, nontrivial = describe(case, blocks, native, played_all)
         rec.case(case, nontrivial, klass, sample_of(case))
     return 'ok'
